@@ -89,8 +89,8 @@ PROTO = "rpyc/core/protocol.py::Connection."
 ATTR_FUNCS = [PROTO + n for n in ("_check_attr", "_access_attr", "_handle_getattr", "_handle_setattr", "_handle_delattr",
                                   "_handle_call", "_handle_callattr", "_handle_cmp", "_handle_ctxexit", "_handle_oldslicing")]
 SERVICE_HOOKS = ["rpyc/core/service.py::Service._rpyc_delattr", "rpyc/core/service.py::Service._rpyc_setattr"]
-ALL_CONTRACTS = ["brine", "compat", "externals", "stream", "channel", "protocol_attr", "colls", "protocol_box", "protocol_core", "async_", "protocol_close", "lib"]
-ALL_SPECS = ["brine_spec", "channel_spec", "policy_spec", "refcount_spec", "protocol_spec", "box_spec"]
+ALL_CONTRACTS = ["brine", "compat", "externals", "stream", "channel", "protocol_attr", "colls", "protocol_box", "protocol_core", "async_", "protocol_close", "lib", "netref", "protocol_handlers"]
+ALL_SPECS = ["brine_spec", "channel_spec", "policy_spec", "refcount_spec", "protocol_spec", "box_spec", "netref_spec"]
 
 PLANS["C06"] = dict(
     title="Attribute access by the peer follows the connection's policy, and only its own",
